@@ -23,6 +23,14 @@ def g10_events(s):
              {'op': 'roman.parse', 'in': [c + 32 if i % 2 else c for i, c in enumerate(s)], 'rule': 0, 'T': 'b'}], None)
 
 
+def g03_events(s):
+    evs = [{'op': 'sem.set', 'max': 1024}]
+    for fn, rule in (('Parse', 0), ('ParseVersion', 0), ('ParseTag', 0), ('DefaultParser', 0), ('DefaultParser', 1)):
+        for T in ('s', 'b'):
+            evs.append({'op': 'sem.parse', 'in': s, 'fn': fn, 'rule': rule, 'T': T})
+    return (evs, None)
+
+
 PLANS = {
     'C01': {
         'mc': [{'module': 'MC_C01', 'what': '18 boundary years x every day x {ext,basic} x 8 limits: Parse(Fmt(d)) = d, canonical shape, Ordinal counts days'}],
@@ -90,6 +98,45 @@ PLANS = {
         'exhaustive': {'quick': True, 'thorough': True},
         'rule': 'graph: complete enumeration by TLC; events: all 256 byte values at every position of valid numerals, insertions, all case patterns, '
                 'grammar-directed numerals in random case, random letter strings, limit and rule sweeps, string/[]byte, Valid alongside the parser',
+        'assumptions': COMMON_ASSUMPTIONS,
+    },
+    'C05': {
+        'mc': [{'module': 'MC_C05', 'what': '3 background IDs x 4 text forms x every position x 26 boundary bytes x 4 rules: positional parser = declarative variant reading; round trips'}],
+        'drivers': [{'name': 'c05', 'shards': 8}],
+        'codes': ['C05.'],
+        'rule': 'uu.fmt: all output paths + accessors + 12 parse-backs per ID (every nibble value at every position, single-bit flips, random); '
+                'uu.parse: all 256 byte values at each of the 36/45 positions, insertions, deletions, x 4 rules x {string,[]byte}, limits',
+        'assumptions': COMMON_ASSUMPTIONS,
+    },
+    'C03': {
+        'legs': [vf.graph_leg('g03', 'Graph_C03', {'quick': {'GRAPH_MAXLEN': '6'}, 'thorough': {'GRAPH_MAXLEN': '7'}}, g03_events,
+                              'every string over {0,1,9,a,Z,-,.,+,v} up to length 6 (thorough 7) x 5 entry points x {string,[]byte} + UnmarshalText: '
+                              'acceptance mask and value = SemVer grammar with form gating; MC_C03: split-based grammar = scanner, accepted text reproduced by formatting',
+                              mc_module='MC_C03')],
+        'drivers': [{'name': 'c03', 'shards': 8, 'per': 20000}],
+        'codes': ['C03.'],
+        'exhaustive': {'quick': True, 'thorough': True},
+        'rule': 'graph: complete enumeration by TLC; events: grammar-generated versions with 1-25 digit numbers (both sides of 2^64-1), long identifier lists, '
+                'mutations, boundary corpus, through 5 entry points; sem.valid: Ver values with arbitrary pre/build for Valid <=> round trip',
+        'assumptions': COMMON_ASSUMPTIONS,
+    },
+    'C06': {
+        'mc': [{'module': 'MC_C06', 'what': 'section-11 order on the universe U_K: total order laws incl. transitivity over all triples, SemVer example chain, departure class symmetric',
+                'tiers': {'quick': {'env': {'MC_K': '2'}}, 'thorough': {'env': {'MC_K': '3'}}}}],
+        'drivers': [{'name': 'c06', 'shards': 8, 'per': 3000}],
+        'codes': ['C06.'],
+        'exhaustive': {'quick': True, 'thorough': True},
+        'rule': 'sem.row: one event per left operand of the universe (U_3 + hand-picked identifiers quick, U_4 thorough) holding Ver.Compare against every right operand, both directions, and Latest; '
+                'sem.cmp: cores with 2^64-1 boundaries x pre-releases x build metadata through Ver.Compare, Compare, CompareVersion, CompareTag, Ver.Latest, Latest*; verdict outside the departure class only',
+        'assumptions': COMMON_ASSUMPTIONS,
+    },
+    'C14': {
+        'mc': [{'module': 'MC_C06', 'what': 'order laws of the reference comparison (shared with C06)',
+                'tiers': {'quick': {'env': {'MC_K': '2'}}, 'thorough': {'env': {'MC_K': '3'}}}}],
+        'drivers': [{'name': 'c06', 'shards': 8, 'per': 3000}, {'name': 'c14', 'shards': 4}],
+        'codes': ['C14.'],
+        'rule': 'the C06 rows and pairs judged for coherence only (sign, antisymmetry, reflexivity, build ignored, equal => 0, latest never the lower, helpers = compare of parsed values, error iff invalid), '
+                'including the mixed identifiers C06 excludes; sem.next: NextMajor/Minor/Patch on 11^3 boundary cores and every universe element (panic iff component = 2^64-1, plain release strictly above)',
         'assumptions': COMMON_ASSUMPTIONS,
     },
 }
